@@ -192,7 +192,6 @@ Section Loops.
   Variable agree : box -> M -> M -> Prop.
   Hypothesis apply_local : forall k o m m', agree (box_of o) m m' -> apply k m o = apply k m' o.
   Hypothesis apply_box : forall k m o, box_of (apply k m o) = box_of o.
-  Hypothesis apply_idem : forall k k' m m' o, apply k m (apply k' m' o) = apply k m o.
 
   Theorem all_objects_current devs m0 m1 key0 key1 objs i o :
     (forall a b, share_cell a b -> overlap a b = true) ->
@@ -215,3 +214,32 @@ Section Loops.
       congruence.
   Qed.
 End Loops.
+
+(* instances for the repaired predicate *)
+Theorem every_intersecting_object_reapplied_fixed :
+  forall (O M Key : Type) (box_of : O -> box) (apply : Key -> M -> O -> O) (split : Key -> Key * Key)
+         (devs : list O) (m : M) (key : Key) (objs : list O) (i : nat) (o : O),
+  nth_error objs i = Some o ->
+  (exists d, In d devs /\ share_cell (box_of d) (box_of o)) ->
+  exists k, nth_error (reapply_loop O M Key box_of apply split check_overlap devs m key objs) i = Some (apply k m o).
+Proof.
+  intros O M Key box_of apply split devs m key objs i o.
+  exact (every_intersecting_object_reapplied O M Key box_of apply split check_overlap devs m key objs i o share_cell_overlap).
+Qed.
+
+Theorem all_objects_current_fixed :
+  forall (O M Key : Type) (box_of : O -> box) (apply : Key -> M -> O -> O) (split : Key -> Key * Key)
+         (agree : box -> M -> M -> Prop),
+  (forall k o m m', agree (box_of o) m m' -> apply k m o = apply k m' o) ->
+  (forall k m o, box_of (apply k m o) = box_of o) ->
+  forall devs m0 m1 key0 key1 objs i o,
+  (forall b, (forall d, In d devs -> ~ share_cell (box_of d) b) -> agree b m0 m1) ->
+  nth_error objs i = Some o ->
+  exists k, nth_error (reapply_loop O M Key box_of apply split check_overlap devs m1 key1
+                         (place_loop O M Key box_of apply split check_overlap devs m0 key0 objs)) i
+            = Some (apply k m1 o).
+Proof.
+  intros O M Key box_of apply split agree Hloc Hbox devs m0 m1 key0 key1 objs i o Hframe Hi.
+  exact (all_objects_current O M Key box_of apply split check_overlap agree Hloc Hbox devs m0 m1 key0 key1 objs i o
+           share_cell_overlap Hframe Hi).
+Qed.
